@@ -154,6 +154,50 @@ fn nth_string(mut idx: usize, len: usize) -> String {
     s
 }
 
+/// Label vocabulary of the list: every distinct label of every rule, most frequent first.
+fn vocabulary(psl: &Psl) -> Vec<String> {
+    let mut freq: std::collections::HashMap<&str, usize> = Default::default();
+    for r in &psl.rules {
+        let body = r.trim_start_matches('!').trim_start_matches("*.");
+        for l in body.split('.') {
+            *freq.entry(l).or_insert(0) += 1;
+        }
+    }
+    let mut v: Vec<(&str, usize)> = freq.into_iter().collect();
+    v.sort_by(|a, b| b.1.cmp(&a.1).then(a.0.cmp(b.0)));
+    v.into_iter().map(|x| x.0.to_string()).collect()
+}
+
+/// rule bodies (markers stripped), sorted the way the compiled table groups them: by reversed labels
+fn sorted_bodies(psl: &Psl) -> Vec<String> {
+    let mut v: Vec<String> = psl.rules.iter().map(|r| r.trim_start_matches('!').trim_start_matches("*.").to_string()).collect();
+    v.sort_by_key(|b| b.split('.').rev().map(|s| s.to_string()).collect::<Vec<_>>());
+    v.dedup();
+    v
+}
+
+/// "label from elsewhere in the list" x "rule": L.P for every rule body P and every label L of the
+/// vocabulary slice given, compared with the reference.  Bulk sweep: counted, not hashed.
+fn cross_product(psl: &Psl, bodies: &[String], vocab: &[String], neighbours: usize, threads: usize) -> Stats {
+    par::sweep(bodies.len(), threads, 16, |i, st| {
+        let p = &bodies[i];
+        let mut labels: Vec<&str> = vocab.iter().map(|s| s.as_str()).collect();
+        // first labels of the rules that sit next to P in table order
+        let lo = i.saturating_sub(neighbours);
+        let hi = (i + neighbours + 1).min(bodies.len());
+        for b in &bodies[lo..hi] {
+            labels.extend(b.split('.'));
+        }
+        for l in labels {
+            let name = format!("{l}.{p}");
+            let (fs, _class, _nt) = eval_name(psl, &name, true);
+            st.evaluations += 1;
+            st.findings_from(fs);
+        }
+        st.outcome("label-x-rule");
+    })
+}
+
 pub fn run(ctx: &Ctx) -> Result<Run, String> {
     let psl = Psl::load(DAT)?;
     // harness self-check: own punycode encoder == idna on every IDN rule
@@ -189,6 +233,13 @@ pub fn run(ctx: &Ctx) -> Result<Run, String> {
     for n in names.iter().step_by(names.len() / 4 + 1) {
         stats.samples.push(json!({"name": n, "reference_suffix": psl.public_suffix(n), "reference_etld1": psl.etld_plus_one(n)}));
     }
+    // part 1b: labels from elsewhere in the list in front of every rule
+    let vocab = vocabulary(&psl);
+    let bodies = sorted_bodies(&psl);
+    let nvocab = ctx.tier.pick(64usize, vocab.len());
+    let cp = cross_product(&psl, &bodies, &vocab[..nvocab.min(vocab.len())], ctx.tier.pick(4, 8), ctx.threads);
+    stats.count("label_x_rule_names", cp.evaluations);
+    stats.merge(cp);
     // part 2: all strings over the alphabet up to length L
     let maxlen = ctx.tier.pick(6, 9);
     for len in 0..=maxlen {
@@ -227,7 +278,7 @@ pub fn run(ctx: &Ctx) -> Result<Run, String> {
     let rules = psl.rules.len();
     let mut run = Run::from_stats(
         "exploration",
-        "every rule of public_suffix_list.dat (A-label form; wildcards instantiated with two labels and their base, exceptions without '!') as-is, with its leading label removed/replaced and with 1..3 labels prepended, compared on public_suffix / effective_tld_plus_one / is_effective_tld with a textbook PSL matcher over the .dat file; half of those names again with Unicode labels prepended (label counts must agree); plus all strings over {c,k,o,m,u,w,.,A,é} up to the stated length and long/odd names (structural checks always, equality for canonical lower-case ASCII names). Non-trivial = a canonical name whose prevailing rule is an explicit rule of the list",
+        "every rule of public_suffix_list.dat (A-label form; wildcards instantiated with two labels and their base, exceptions without '!') as-is, with its leading label removed/replaced and with 1..3 labels prepended, compared on public_suffix / effective_tld_plus_one / is_effective_tld with a textbook PSL matcher over the .dat file; half of those names again with Unicode labels prepended (label counts must agree); every rule with each of the 64 most frequent labels of the list (thorough: every distinct label of the list) and the labels of its 4 (8) neighbours in table order in front of it; plus all strings over {c,k,o,m,u,w,.,A,é} up to the stated length and long/odd names (structural checks always, equality for canonical lower-case ASCII names). Non-trivial = a canonical name whose prevailing rule is an explicit rule of the list",
         true,
         stats,
     );
